@@ -74,6 +74,14 @@ CLAIMS = {
          "Decides structural necessary conditions of metadata preservation: ext4 inode (split uid/gid/size halves, seconds+extra timestamp pairs), ext4 directory entry, FAT 8.3 record (attribute/case bits with masks, date/time words, split cluster) and squashfs inode header encoders and parsers agree byte by byte; ext4 Chmod/Chown/Chtimes and the FAT attribute setters store only their own fields; the file-type-to-mode tables of ext4 and squashfs are total. Representable ranges, the symlink inline boundary and host metadata collection are not covered.",
          "Frame conditions are over field stores reached through in-package callees up to depth 4, excluding write-back helpers.",
          "DESIGN.md §4 C19"),
+ "C04": ("typestate (dirty/flush) over go/ssa CFGs with callee summaries + frame conditions (stored-field sets) + linear-form comparison of bitmap indices + nil-guard dominance + loop-coverage of block writes",
+         "Decides structural necessary conditions of the ext4 tree behaviour: stores to fields of an inode loaded from disk are followed by writeInode on every success path of Chmod/Chown/Chtimes/Truncate/Symlink/mkDirEntry/File.Write/Remove (the 'size or blocks changed' guarded flush of File.Write is recognised); Chmod/Chown/Chtimes store only their own fields; allocation and release address the same bitmap bit and group (shared with C05-c); method calls on the extent tree of an arbitrary entry's inode are nil-guarded; Remove rewrites every block of the parent directory. Two defects were repaired (Remove of an in-inode symlink panicked; stale directory blocks after Remove). Equality with a reference tree, extent mapping arithmetic, directory packing and path walking are not decided.",
+         "One dirty bit for all inodes of a function (Symlink/mkDirEntry handle two); path-insensitive except for the listed idioms.",
+         "DESIGN.md §4 C04"),
+ "C05": ("typestate (dirty/flush) over go/ssa CFGs with callee summaries for group descriptors and superblock + ordering of checksum computation against stores + linear-form comparison of bitmap indices and group quotients + provenance of counter deltas + byte-layout extraction",
+         "Decides structural preconditions of e2fsck acceptance (the external checker is not run by the check): group-descriptor and superblock changes and bitmap-checksum refreshes are flushed by writeGDT/writeSuperblock before every success return of the public API; the three checksummed encoders store nothing after the checksum; every Set/Clear/IsSet on an on-disk bitmap uses ino-ipg*g-1 resp. block-(firstDataBlock+g*bpg) and group numbers are (ino-1)/ipg resp. (block-firstDataBlock)/bpg; free-block counters change by block counts, never inode.blocks; superblock, group descriptor, inode and directory-entry encoders and parsers agree byte by byte; Remove marks the removed inode deleted and writes it. Four defects in Remove/blockGroupForBlock were repaired and demonstrated with e2fsck. Layout at mkfs time (an incorrect resize-inode size with non-default BlocksPerGroup was observed and is not covered), link counts, extent-tree metadata blocks, directory packing and the state after a refused operation are not decided.",
+         "Assumes a range loop that flushes per element runs at least once when something was dirtied (collections filled alongside), that incrGD* helpers are the flush points for preceding bitmap writes, and that in-package callees that never mention io.EOF cannot return it.",
+         "DESIGN.md §4 C05"),
 }
 
 NOT_APPLICABLE = {
